@@ -26,7 +26,10 @@ RULE = ("Hypothesis RuleBasedStateMachine: one generated file (C04 shapes: multi
         "result is compared with the model, every k-th next() with the k-th chunk of a fresh file's iterator, and at "
         "teardown all live iterators are drained and must deliver the complete remaining sequence. Non-trivial: a "
         "history in which an iterator is advanced after another operation performed reads on the stream in between; "
-        "distinct by SHA-1 of (file, op list).")
+        "distinct by SHA-1 of (file, op list)."
+        ' Every index / slice / window result is also compared in REPRESENTATION (container type, dtype with byte '
+        'order, shape) with the same request on a freshly opened file, and arrays returned earlier are re-checked at '
+        'the end of the history: later operations must not change them.')
 ASSUMPTIONS = [
     "single-threaded histories only (documented: open files are not thread-safe)",
     "canonical chunk sequences come from a fresh TdmsFile.open of the same bytes and are themselves checked against the "
